@@ -32,7 +32,7 @@ API Reference
 import numpy as np
 import copy
 
-from stockpyl.helpers import change_dict_key, is_integer
+from stockpyl.helpers import change_dict_key, is_integer, replace_dict_numeric_string_keys, replace_dict_null_keys
 
 
 # ===============================================================================
@@ -1378,6 +1378,12 @@ class NodeStateVars(object):
 			nsv.demand_met_from_stock = the_dict['demand_met_from_stock']
 			nsv.demand_met_from_stock_cumul = the_dict['demand_met_from_stock_cumul']
 			nsv.fill_rate = the_dict['fill_rate']
+
+			# Keys of the state variable dicts (node and product indices, or None for the external supplier/customer)
+			# may have been saved as strings (e.g., by JSON) -- restore them.
+			for attr, value in vars(nsv).items():
+				if isinstance(value, dict):
+					setattr(nsv, attr, replace_dict_null_keys(replace_dict_numeric_string_keys(value)))
 
 		return nsv
 
